@@ -20,7 +20,7 @@ out = ["# Seeded changes", "",
        "other than transiently (`git -C /repo apply` ... `git -C /repo checkout -- .`).", "",
        "| change | breaks | what it is | needs to manifest | own check (quick) | other checks that fire | note |", "|---|---|---|---|---|---|---|"]
 for m in rows:
-    own = "caught" if m.get("detected_by_own_check") else "MISSED"
+    own = "caught" if m.get("detected_by_own_check") else ("silent by design (see note)" if m.get("own_check_not_applicable") else "MISSED")
     others = sorted(c for c, rc in cross.get(m["_dir"], {}).items() if rc == 1 and c != m["property"])
     out.append("| %s | %s | %s | %s | %s | %s | %s |" % (m["_dir"], m["property"], m.get("what_the_change_is", ""), m.get("needs_to_manifest", ""), own, ", ".join(others), m.get("note", "")))
 open(ROOT + "/seeded/README.md", "w").write("\n".join(out) + "\n")
